@@ -22,8 +22,10 @@ var checksumServiceContext = &ChecksumServiceContext{
 
 func Registry(service any) bool {
 	if cs, ok := service.(interface{ Algorithm() string }); ok {
+		verifPoint("Registry:enter", cs.Algorithm())
 		checksumServiceContext.mu.Lock()
 		defer checksumServiceContext.mu.Unlock()
+		verifPoint("Registry:locked", cs.Algorithm())
 		if _, exists := checksumServiceContext.cache[cs.Algorithm()]; exists {
 			return false
 		}
@@ -34,8 +36,10 @@ func Registry(service any) bool {
 }
 
 func Get(algorithm string) (any, bool) {
+	verifPoint("Get:enter", algorithm)
 	checksumServiceContext.mu.RLock()
 	defer checksumServiceContext.mu.RUnlock()
+	verifPoint("Get:locked", algorithm)
 	if service, exists := checksumServiceContext.cache[algorithm]; exists {
 		return service, exists
 	}
@@ -43,14 +47,18 @@ func Get(algorithm string) (any, bool) {
 }
 
 func Remove(algorithm string) {
+	verifPoint("Remove:enter", algorithm)
 	checksumServiceContext.mu.Lock()
 	defer checksumServiceContext.mu.Unlock()
+	verifPoint("Remove:locked", algorithm)
 	delete(checksumServiceContext.cache, algorithm)
 }
 
 func Clear() {
+	verifPoint("Clear:enter", "")
 	checksumServiceContext.mu.Lock()
 	defer checksumServiceContext.mu.Unlock()
+	verifPoint("Clear:locked", "")
 	checksumServiceContext.cache = make(map[string]any)
 }
 
